@@ -63,6 +63,9 @@ func (opts CollectJSONOptions) getSource() (<-chan *birch.Document, <-chan error
 				vpoint("js.send")
 				out <- doc
 			}
+			if err := stream.Err(); err != nil {
+				errs <- errors.Wrap(err, "problem reading input")
+			}
 		}()
 	case opts.FileName != "" && !opts.Follow:
 		go func() {
@@ -83,6 +86,9 @@ func (opts CollectJSONOptions) getSource() (<-chan *birch.Document, <-chan error
 					return
 				}
 				out <- doc
+			}
+			if err := stream.Err(); err != nil {
+				errs <- errors.Wrapf(err, "problem reading data file %s", opts.FileName)
 			}
 		}()
 	case opts.FileName != "" && opts.Follow:
